@@ -1447,4 +1447,89 @@ theorem reach_SInv {c : Cfg} (hg : good c = true) (nAcc h0 : Nat) (vals : List (
   rw [h2] at this
   exact this
 
+/-! ### the SDK's `ReferenceCountInvariant` (a total) follows from the per-period equations -/
+
+theorem sumTo_add (n : Nat) (f g : Nat → Nat) : sumTo n (fun i => f i + g i) = sumTo n f + sumTo n g := by
+  induction n with
+  | zero => rfl
+  | succ n ih => simp only [sumTo, ih]; omega
+
+theorem sumTo_swap (m n : Nat) (F : Nat → Nat → Nat) :
+    sumTo m (fun p => sumTo n (fun d => F d p)) = sumTo n (fun d => sumTo m (fun p => F d p)) := by
+  induction m with
+  | zero => simp only [sumTo]; exact (sumTo_eq_zero (fun _ _ => rfl)).symm
+  | succ m ih =>
+    simp only [sumTo]
+    rw [ih, ← sumTo_add]
+
+theorem sumTo_single (m k : Nat) : sumTo m (fun p => if k = p then 1 else 0) = if k < m then 1 else 0 := by
+  induction m with
+  | zero => rfl
+  | succ m ih =>
+    simp only [sumTo, ih]
+    by_cases h1 : k < m
+    · have : ¬ (k = m) := by omega
+      simp [h1, this, Nat.lt_succ_of_lt h1]
+    · by_cases h2 : k = m
+      · subst h2; simp
+      · have : ¬ (k < m + 1) := by omega
+        simp [h1, h2, this]
+
+/-- number of delegations of the accounts `< n` -/
+def delNum (n : Nat) (v : VS) : Nat := sumTo n (fun d => if (v.del d).isSome then 1 else 0)
+
+theorem sum_slashCnt (l : List SlashEv) (P : Nat) (h : ∀ e, e ∈ l → e.period < P) :
+    sumTo P (fun p => (l.filter (fun e => e.period == p)).length) = l.length := by
+  induction l with
+  | nil => exact sumTo_eq_zero (fun _ _ => rfl)
+  | cons e es ih =>
+    have he := h e (List.mem_cons_self ..)
+    have hes := ih (fun x hx => h x (List.mem_cons_of_mem _ hx))
+    have : (fun p => ((e :: es).filter (fun x => x.period == p)).length) =
+        fun p => (if e.period = p then 1 else 0) + (es.filter (fun x => x.period == p)).length := by
+      funext p
+      by_cases hp : e.period = p
+      · have hb : (e.period == p) = true := by simp [hp]
+        simp [List.filter, hb, hp]; omega
+      · have hb : (e.period == p) = false := by simp [hp]
+        simp [List.filter, hb, hp]
+    rw [this, sumTo_add, sumTo_single, hes, if_pos he]
+    simp only [List.length_cons]; omega
+
+/-- the total of all reference counts = one per validator + one per delegation + one per slash event -/
+theorem RI.total {n : Nat} {v : VS} (hi : RI n v) (hD : Dom v) :
+    sumTo v.period v.refs = delNum n v + 1 + v.slashes.length := by
+  have hper := hi.per
+  have e1 : sumTo v.period v.refs = sumTo v.period (fun p => infoCnt n v p + curRef v p + slashCnt v p) :=
+    sumTo_congr (fun p _ => hi.cnt p)
+  have e2 : sumTo v.period (fun p => infoCnt n v p + curRef v p + slashCnt v p) =
+      sumTo v.period (fun p => infoCnt n v p) + sumTo v.period (fun p => curRef v p) +
+      sumTo v.period (fun p => slashCnt v p) := by
+    rw [sumTo_add (f := fun p => infoCnt n v p + curRef v p), sumTo_add]
+  have e3 : sumTo v.period (fun p => curRef v p) = 1 := by
+    have : (fun p => curRef v p) = fun p => if v.period - 1 = p then 1 else 0 := by
+      funext p
+      unfold curRef
+      by_cases h : p + 1 = v.period
+      · have : v.period - 1 = p := by omega
+        simp [h, this]
+      · have : ¬ (v.period - 1 = p) := by omega
+        simp [h, this]
+    rw [this, sumTo_single, if_pos (by omega)]
+  have e4 : sumTo v.period (fun p => slashCnt v p) = v.slashes.length :=
+    sum_slashCnt v.slashes v.period (fun e he => by have := hi.eper e he; omega)
+  have e5 : sumTo v.period (fun p => infoCnt n v p) = delNum n v := by
+    unfold infoCnt delNum
+    rw [sumTo_swap]
+    apply sumTo_congr
+    intro d _
+    rw [← hD d]
+    cases hs : v.sinfo d with
+    | none => simp only [ind]; exact sumTo_eq_zero (fun _ _ => rfl)
+    | some si =>
+      have := hi.sper d si hs
+      simp only [ind, Option.isSome_some, if_true]
+      rw [sumTo_single, if_pos (by omega)]
+  rw [e1, e2, e3, e4, e5]
+
 end FxVerif.Proofs.C11
